@@ -680,6 +680,55 @@ def validate_translation(ctx, leaves, samples):
                    not bad and n > 0, "; ".join(bad[:5]) or "no state evaluated")
 
 
+# ------------------------------------------------------------------------------------------------ per-theorem failure attribution
+PROOF_FILES = ["ResidualProofs", "Guards", "Summary"]      # proof files about the generated definitions, in dependency order
+
+
+def attribute_failures(ctx):
+    """When a lemma about a regenerated definition no longer proves, its file does not compile and `make` reports every
+    theorem of Props/Properties_C20.v as failed.  Here the proof files are replayed through `coqtop` (which continues after
+    an error) as modules of ONE stream: a lemma whose proof fails stays undefined, so exactly the lemmas / theorems that
+    (transitively) use it fail with "reference not found".  Returns {theorem: bool} or None if the replay is unusable."""
+    def strip_imports(txt, defined):
+        def fix(m):
+            sent = m.group(0)
+            mine = [x for x in PROOF_FILES if re.search(r"\bC20\.%s\b" % x, sent)]
+            for x in mine:
+                sent = re.sub(r"\s*\bC20\.%s\b" % x, "", sent)
+            return sent + "".join("\nImport %s." % x for x in mine if x in defined)
+        return re.sub(r"From IPV Require Import[^.]*(?:\.[A-Za-z_][^.]*)*\.(?=\s)", fix, txt)
+    out = []
+    defined = []
+    for f in PROOF_FILES:
+        txt = open(os.path.join(vlib.COQ, "C20", f + ".v")).read()
+        txt = strip_imports(txt, defined)
+        txt = re.sub(r"\bQed\.", "Qed. Abort All.", txt)
+        out.append("Module %s.\n%s\nEnd %s.\n" % (f, txt, f))
+        defined.append(f)
+    props = open(os.path.join(vlib.COQ, "Props", "Properties_C20.v")).read()
+    thms = re.findall(r"^\s*Theorem\s+([\w']+)", props, flags=re.M)
+    props = strip_imports(props, defined)
+    props = re.sub(r"^\s*Print Assumptions [^\n]*\n", "", props, flags=re.M)
+    props = re.sub(r"\bQed\.", "Qed. Abort All.", props)
+    out.append(props)
+    out.append("Definition attr_marker (n : nat) := n.\n")
+    for i, t in enumerate(thms):
+        out.append("Check (attr_marker %d).\nCheck %s.\n" % (i, t))
+    out.append("Check (attr_marker %d).\n" % len(thms))
+    with vlib.scratch("attr20") as d:
+        pth = os.path.join(d, "all.v")
+        open(pth, "w").write("\n".join(out))
+        rc, so, se = vlib.sh("coqtop -Q %s IPV -w -all < %s 2>&1" % (vlib.COQ, pth), cwd=d, timeout=600)
+    parts = re.split(r"attr_marker (\d+)\s*\n\s*: nat", so)
+    if len(parts) < 2 * len(thms) + 1:
+        return None
+    status = {}
+    for i, t in enumerate(thms):
+        seg = parts[2 * i + 2]
+        status[t] = ("Error" not in seg) and (t in seg)
+    return status
+
+
 # ------------------------------------------------------------------------------------------------ main
 def table_for(meta):
     masters, species = db_surface(meta["db"])
@@ -723,7 +772,7 @@ def evaluate(ctx, cases, results):
     if errs:
         ctx.obligation("verified-checker-run(coqc evaluates the cases file)", False, errs[0])
     nfail = 0
-    seen_keys = set()
+    worst = {}          # key -> (size of the deviation, arguments of ctx.violation): the clearest instance per key is reported
     for (ci, si, kind, term, fok, det), v in zip(allc, vals):
         c = cases[ci]
         model = c["meta"]["model"]
@@ -748,13 +797,18 @@ def evaluate(ctx, cases, results):
                 # C/m2 for the charge-potential rows, mol of charge for the diffuse-layer balance); for small charges this is
                 # weaker than the property's 1e-8 relative.  Same stable key for every instance of this gap.
                 key = "C20/tolerance-gap/%s" % kind
-            if key in seen_keys:
+            dev = abs(det["la"] - det["predicted"]) if "predicted" in det and "la" in det else 0.0
+            if dev and det["la"] < -12:
+                dev *= 1e-3           # prefer a species that is present in a significant amount
+            if key in worst and worst[key][0] >= dev:
                 continue
-            seen_keys.add(key)
-            ctx.violation(key, "surface %s check fails (model %s, state %d of the run): %s" % (kind, model, si, json.dumps(det, default=str)[:600]),
-                          {"kind": "input", "database": c["db"], "input_text": c["text"], "state_index": si, "check": kind,
-                           "coq_term": term[:4000], "observed": det, "expected": "verified checker returns true (1e-8)",
-                           "meta": c["meta"]})
+            worst[key] = (dev, (key, "surface %s check fails (model %s, database %s, state %d of the run): %s"
+                                % (kind, model, c["db"], si, json.dumps(det, default=str)[:600]),
+                                {"kind": "input", "database": c["db"], "input_text": c["text"], "state_index": si, "check": kind,
+                                 "coq_term": term[:4000], "observed": det, "expected": "verified checker returns true (1e-8)",
+                                 "meta": c["meta"]}))
+    for key in sorted(worst):
+        ctx.violation(*worst[key][1])
     ctx.extra.setdefault("checks_by_model", {})
     for m, d in stats.items():
         for k, (n, f) in d.items():
@@ -785,6 +839,16 @@ def run(ctx):
     def gen2():
         leaves.extend(c20_gen.generate())
     ok = vlib.coq_stage(ctx, "Props/Properties_C20.vo", gen=gen2)
+    if not ok:
+        try:
+            st = attribute_failures(ctx)
+        except Exception as ex:
+            st = None
+            ctx.notes.append("per-theorem attribution failed: %r" % ex)
+        if st and not all(st.values()):      # only trust the replay if it reproduces a failure
+            ctx.obligations = [(n, (True if st.get(n) else okk) if n in st else okk,
+                                ("" if st.get(n) else det) if n in st else det) for n, okk, det in ctx.obligations]
+            ctx.notes.append("failure attributed by coqtop replay to: " + ", ".join(n for n, v in st.items() if not v))
     boost = 1 if ok else 3          # a broken obligation: search harder for a concrete failing input
     ncase = ctx.n(78, 600) * boost
     cases = corpus_cases()
